@@ -91,7 +91,8 @@ PROPS = {
         "For a dynamic attribute the emitted code is proved to call the escape routine once with the "
         "attribute's own quote character and static text as default, to drop the attribute for None, "
         "and the escape routine itself (K2) maps `default` to the static text as written.",
-        [K("k3::S-Attribute")] + K2Q + [U('bounded.units', 'attrs', 'B-ATTR')],
+        [K("k3::S-Attribute"), K("k3::S-Attribute-dict")] + K2Q +
+        [U('bounded.units', 'attrs', 'B-ATTR'), U('bounded.units', 'split', 'B-SPLIT')],
         ["tal.prepare_attributes: only the bounded stand-in B-ATTR (not counted as proved)",
          "boolean and dict attributes (pending)"]),
     "C09": k3prop(
